@@ -14,6 +14,7 @@
 //	                   tree also stores blocks no validator would accept (duplicates, bad windows, broken deps).
 //	treefree           as treeclean, but a child of the best block may be stored without becoming best (Repository.AddBlock
 //	                   permits it, the node's fork choice never does it): readers then stand on descendants of best.
+//	long300            see long300(): the same txs at heights on both sides of 127|128 and 255|256 on two branches.
 //	long               a 90..130-block trunk with an early long side branch and a late short one; the same txs are
 //	                   included on several branches, some of them more than 100 blocks after their block ref, so that
 //	                   every tx is looked up through BOTH paths of Chain.HasTransaction (recent-ancestor scan for
@@ -952,6 +953,78 @@ func (r *run) long() {
 	}
 }
 
+// long300: a ~270-block trunk and a side branch forking at ~120. The same txs sit at heights 127..132 on one branch and
+// at 256..258 on the other (and the other way round), i.e. on both sides of the one-byte / two-byte boundary of the
+// uvarint in the index key (127|128) and of the point where byte order and numeric order of the keys part (256 = 80 02
+// sorts before 129 = 81 01). They are looked up from heads of BOTH branches below, between and above those heights,
+// through both paths of HasTransaction (refs are chosen so that heads >= 226 take the index path).
+func (r *run) long300() {
+	f := uint32(116 + r.rng.Intn(8))
+	top := uint32(262 + r.rng.Intn(8))
+	var pool []*txr
+	for i := 0; i < 12; i++ {
+		pool = append(pool, r.newTx(f-uint32(r.rng.Intn(12)), 1000, nil, true))
+	}
+	// pairs (lo, hi) on different branches; in (129,256) (130,256) (131,257) (132,258) the key of the HIGHER block sorts
+	// first (81 01 > 80 02 ...), in (127,256) (128,257) numeric and byte order agree
+	lo := []uint32{127, 128, 129, 130, 131, 132}
+	hi := []uint32{256, 257, 256, 256, 257, 258}
+	// tx i: on the trunk at lo[i] and on the side at hi[i] for i < 6, the other way round for i >= 6
+	at := func(which string, n uint32) []*txr {
+		var out []*txr
+		for i, t := range pool {
+			a, b := lo[i%6], hi[i%6]
+			if (i >= 6) != (which == "side") {
+				a, b = b, a
+			}
+			_ = b
+			if n == a {
+				out = append(out, t)
+			}
+		}
+		return out
+	}
+	tips := map[string]*blk{"trunk": r.blocks[0]}
+	grow := func(which string) bool {
+		head := tips[which]
+		txs := at(which, head.num+1)
+		revs := make([]bool, len(txs))
+		for i := range revs {
+			revs[i] = r.rng.Intn(4) == 0
+		}
+		asBest := head == r.best || head.num+1 > r.best.num
+		n := r.addBlock(head, txs, revs, asBest)
+		if n == nil {
+			return false
+		}
+		tips[which] = n
+		return true
+	}
+	for tips["trunk"].num < f {
+		if !grow("trunk") {
+			return
+		}
+	}
+	tips["side"] = tips["trunk"]
+	for tips["trunk"].num < top {
+		if !grow("trunk") || !grow("side") {
+			return
+		}
+	}
+	// heads of both branches below, between and above the inclusion heights
+	for _, which := range []string{"trunk", "side"} {
+		for x := tips[which]; x.num > f; x = x.parent {
+			switch n := x.num; {
+			case n >= 125 && n <= 133, n >= 224 && n <= 232, n >= 252 && n <= 260, n%16 == 0, x == tips[which]:
+				r.qLookup(x, r.txs)
+			}
+		}
+		r.qByNum(tips[which])
+	}
+	r.qExcl(tips["trunk"], []*blk{tips["side"]})
+	r.qExcl(tips["side"], []*blk{tips["trunk"]})
+}
+
 func (r *run) finish() {
 	r.closeSubs()
 	r.st.Events = len(r.evs)
@@ -998,6 +1071,8 @@ func oneRun(seed int64, mode string, blocks int) (r *run) {
 		r.tree(blocks, true)
 	case "long":
 		r.long()
+	case "long300":
+		r.long300()
 	default:
 		must(fmt.Errorf("unknown mode %q", mode))
 	}
